@@ -1857,3 +1857,14 @@ impl<K: Key + 'static, V: Value + 'static> Drop for CursorMut<'_, K, V> {
         let _ = self.finish();
     }
 }
+
+// Verification hook (C04 shape correspondence; read-only, add-only)
+#[cfg(redb_verif)]
+impl<K: Key + 'static, V: Value + 'static> Table<'_, K, V> {
+    /// The logical shape of this table's B-tree as the write transaction currently sees it
+    /// (uncommitted pages included), in pre-order. Call it between operations, with no guard
+    /// or iterator of this table alive.
+    pub fn verif_shape(&self) -> Result<crate::verif::VShape> {
+        self.tree.verif_shape()
+    }
+}
